@@ -4,7 +4,7 @@ from hypothesis import strategies as st
 from vlib import jasm_io
 from vlib.gen_listing import att_view, norm_view
 from vlib.gen_rules import broad_text, SHIPPED_MACROS, broad_cases
-from vlib.matcheval import locate, record_table, run_all_modes, stream_sample
+from vlib.matcheval import found_by, locate, record_table, run_all_modes, stream_sample
 from vlib.model import stream_record
 from vlib.refmatch import Ref
 from vlib.render import render
@@ -23,7 +23,7 @@ RULE = (
 )
 ASSUMPTIONS = [
     "the stream predicted from the listing model equals JASM's stream (checked separately in C08-C10)",
-    "empty matches of rules that can match the empty sequence cover zero instructions and are not judged here (C11/C12)",
+    "a rule whose items may all be absent is found where it covers at least one instruction; an empty match is never an occurrence (F42)",
     "@any as a $deref component may span several components of one bracket operand: alignment only",
 ]
 FLOORS = {"reported>=1": 0.3, "macros": 0.3, "feat=@any-operand": 0.02, "feat=@any-mnemonic": 0.02, "feat=extra-operands": 0.03, "feat=capture": 0.03}
@@ -154,12 +154,10 @@ def evaluate(case):
     ok = True
     for t in full_all:
         if t == "":
-            if nullable is False:
-                ev.dev("empty-match", pattern=case["pattern"])
-                ok = False
-                break
-            exp_addrs.append("")
-            continue
+            # covers no instruction, has no address: never an occurrence, whatever the rule (F42)
+            ev.dev("empty-match", pattern=case["pattern"])
+            ok = False
+            break
         ij = locate(t, records, table, pos)
         if ij is None:
             ev.dev("match-not-aligned", observed=t)
@@ -183,8 +181,8 @@ def evaluate(case):
             ev.dev("first-full-differs", expected=full_all[:1], observed=outs[("list", "first", False)])
         if outs[("list", "first", True)] != addr_all[:1]:
             ev.dev("first-addr-differs", expected=addr_all[:1], observed=outs[("list", "first", True)])
-        if spans is not None and bool(spans) != bool(full_all):
-            ev.dev("verdict", expected=bool(spans), observed=full_all[:2])
+        if spans is not None and found_by(spans) != bool(full_all):
+            ev.dev("verdict", expected=found_by(spans), observed=full_all[:2])
     if nonempty:
         ev.tags.append("reported>=1")
     ev.nontrivial = nonempty > 0
